@@ -293,6 +293,22 @@ func run(tapeJSON json.RawMessage, res *core.Result) {
 		res.Evals = 1
 	}
 	sort.Strings(classParts)
+	// what the adversary did in this run (fault kinds that were actually applied)
+	for i, p := range tp.Pres {
+		if p.ReplayOf >= 0 {
+			res.Faults["replayed-request"]++
+			continue
+		}
+		for _, d := range p.Spec.Defects {
+			res.Faults[d.Kind]++
+		}
+		if p.Spec.PAC != "" && p.Spec.PAC != "valid" {
+			res.Faults["pac-"+p.Spec.PAC]++
+		}
+		if i > 0 && p.ThinkNs > int64(time.Second) {
+			res.Faults["clock-advanced-between-presentations"]++
+		}
+	}
 	res.Class = settingsClass(st) + "|" + strings.Join(classParts, ";")
 }
 
